@@ -182,3 +182,11 @@ Theorem C03_source_tests_known :
   tests_known serialize_code serialize_known = true.
 Proof. exact serialize_tests_known. Qed.
 Print Assumptions C03_source_tests_known.
+
+(* the element builders of get / get-config as translated (Netconf.filter_elem, defaults_elem, op_payload):
+   an unknown filter type or defaults mode is an error, every builder's error is examined before the
+   next builder runs and ends the operation with nothing built *)
+From Scrapli Require Import NcBuildSrc.
+Theorem C03_build_is_source : nc_build_src_ok = true.
+Proof. exact nc_build_is_source. Qed.
+Print Assumptions C03_build_is_source.
